@@ -190,28 +190,77 @@ def check_kernel_shifts(run, fx, rs):
 
 def check_floor_path(run, fx, rs):
     rule = "R5.epoch-decomposition-floor"
-    run.rule(rule, "the functions on the epoch <-> fields path contain no truncating `/` or `%` on signed operands "
-                   "(div_euclid / rem_euclid only); BalanceTime's div_mod is floor div/mod")
-    names = ["temporal_rs::iso::IsoDateTime::from_epoch_nanos", "temporal_rs::iso::IsoDate::balance",
-             "temporal_rs::iso::iso_date_to_epoch_days", "temporal_rs::iso::balance_iso_year_month",
-             "temporal_rs::iso::IsoTime::balance", "temporal_rs::iso::div_mod", "temporal_rs::utils::epoch_ms_to_epoch_days",
-             "temporal_rs::utils::epoch_days_for_year", "temporal_rs::builtins::core::instant::Instant::epoch_milliseconds"]
-    for p in names:
-        f = rs.fn(p)
-        if f is None:
-            run.anchor_missing(rule, p.rsplit("::", 1)[-1], "%s not found" % p)
-            continue
-        bad = [node_line(n) for n in hir_walk(f.hir) if isinstance(n, dict) and n.get("k") == "bin" and n["op"] in ("/", "%")
-               and str(n.get("ty", "")).startswith("i")]
-        run.check(not bad, rule, p.replace("temporal_rs::", ""), "no truncating division",
-                  "%s uses truncating `/` or `%%` on a signed value at line(s) %s" % (f.name, bad), f.loc)
+    run.rule(rule, "the functions on the epoch <-> fields path round towards minus infinity (floor division / Euclidean "
+                   "remainder), not towards zero: each is folded on negative and positive representatives and compared with "
+                   "floor arithmetic (a truncating `/` or `%` differs exactly on the negative non-multiples used here)")
+    import datetime
+
+    def days_from_civil(y, m, d):
+        # proleptic Gregorian day number relative to 1970-01-01 (exact integer arithmetic; python's floor division)
+        y -= m <= 2
+        era = y // 400
+        yoe = y - era * 400
+        doy = (153 * (m + (-3 if m > 2 else 9)) + 2) // 5 + d - 1
+        doe = yoe * 365 + yoe // 4 - yoe // 100 + doy
+        return era * 146097 + doe - 719468
+    IT = "temporal_rs::iso::IsoTime"
+
+    def itime(h, mi, sec, ms, us, ns):
+        return H.S(IT, (("hour", h), ("minute", mi), ("second", sec), ("millisecond", ms), ("microsecond", us), ("nanosecond", ns)))
+    cases = []
     dm = rs.fn("temporal_rs::iso::div_mod")
     if dm is not None:
-        ev = H.Evaluator(fx)
-        ev.inline = lambda p: False
-        r = ev.call_fn(dm, [H.Sym("param", ("dividend",)), H.Sym("param", ("divisor",))])
-        run.check(show(r) == "(div_euclid[$dividend, $divisor], rem_euclid[$dividend, $divisor])", rule, "div_mod/shape",
-                  show(r), "div_mod computes %s; expected (div_euclid, rem_euclid)" % show(r), dm.loc)
+        for a in (-1, -999, -1000, -1001, 0, 999, 1000, 1999):
+            cases.append(("div_mod(%d, 1000)" % a, dm, [a, 1000], H.T((a // 1000, a % 1000))))
+    bal = rs.fn("temporal_rs::iso::IsoTime::balance")
+    if bal is None:
+        run.anchor_missing(rule, "IsoTime::balance", "not found")
+    else:
+        for args, (dd, tm) in (((0, 0, 0, 0, 0, -1), (-1, (23, 59, 59, 999, 999, 999))), ((0, 0, 0, 0, -1, 0), (-1, (23, 59, 59, 999, 999, 0))),
+                               ((0, 0, 0, -1, 0, 0), (-1, (23, 59, 59, 999, 0, 0))), ((0, 0, -1, 0, 0, 0), (-1, (23, 59, 59, 0, 0, 0))),
+                               ((0, -1, 0, 0, 0, 0), (-1, (23, 59, 0, 0, 0, 0))), ((-1, 0, 0, 0, 0, 0), (-1, (23, 0, 0, 0, 0, 0))),
+                               ((-25, 0, 0, 0, 0, 0), (-2, (23, 0, 0, 0, 0, 0))), ((24, 0, 0, 0, 0, 1000), (1, (0, 0, 0, 0, 1, 0))),
+                               ((0, 0, 0, 0, 0, -1000), (-1, (23, 59, 59, 999, 999, 0)))):
+            cases.append(("BalanceTime%s" % (args,), bal, list(args), H.T((dd, itime(*tm)))))
+    f = rs.fn("temporal_rs::utils::epoch_ms_to_epoch_days")
+    if f is not None:
+        for ms in (-1, -86_400_000, -86_400_001, 0, 86_399_999, 86_400_000):
+            cases.append(("epoch_ms_to_epoch_days(%d)" % ms, f, [ms], ms // 86_400_000))
+    f = rs.fn("temporal_rs::iso::balance_iso_year_month")
+    if f is not None:
+        for y, m in ((2000, 0), (2000, -11), (2000, -12), (2000, 13), (2000, 12), (2000, 1), (-1, -1)):
+            cases.append(("BalanceISOYearMonth(%d, %d)" % (y, m), f, [y, m], H.T((y + (m - 1) // 12, (m - 1) % 12 + 1))))
+    f = rs.fn("temporal_rs::utils::epoch_days_for_year")
+    if f is not None:
+        for y in (1970, 1969, 1968, 1901, 1900, 1601, 1600, 1, 0, -1, -3, -4, -100, -400, -271821, 275760):
+            cases.append(("epoch_days_for_year(%d)" % y, f, [y], days_from_civil(y, 1, 1)))
+    f = rs.fn("temporal_rs::iso::iso_date_to_epoch_days")
+    if f is not None:
+        # the month argument is an index that may be out of 0..12: moving it by a year's worth must be the same day
+        for y, m, d in ((1970, -1, 1), (1970, -12, 15), (1970, 13, 1), (2000, -25, 29), (-1, -1, 1)):
+            k = fold(H.Evaluator(fx), f, [y, m, d])
+            k2 = fold(H.Evaluator(fx), f, [y + m // 12, m % 12, d])
+            tri(run, rule, "iso_date_to_epoch_days(%d, %d, %d)" % (y, m, d), [k, k2], k == k2 and k[0] == "val",
+                "= iso_date_to_epoch_days(%d, %d, %d)" % (y + m // 12, m % 12, d),
+                "iso_date_to_epoch_days(%d, %d, %d) = %s but (%d, %d, %d) = %s: the month overflow must carry with floor division" %
+                (y, m, d, k[1], y + m // 12, m % 12, d, k2[1]), f.loc)
+    f = rs.fn("temporal_rs::builtins::core::instant::Instant::epoch_milliseconds")
+    if f is not None:
+        I = "temporal_rs::builtins::core::instant::Instant"
+        E = "temporal_rs::epoch_nanoseconds::EpochNanoseconds"
+        for ns in (-1, -999_999, -1_000_000, -1_000_001, 0, 999_999, 1_000_000):
+            cases.append(("Instant(%d ns).epoch_milliseconds()" % ns, f, [H.V(I, (H.V(E, (ns,)),))], ns // 1_000_000))
+    f = rs.fn("temporal_rs::iso::IsoDateTime::from_epoch_nanos")
+    decided = 0
+    for name, fn, args, want in cases:
+        got = fold(H.Evaluator(fx), fn, args)
+        r = tri(run, rule, name, got, got[0] in ("val", "ok") and got[1] == want, "%s = %s" % (name, show(want)[:60]),
+                "%s = %s, floor arithmetic gives %s" % (name, show(got[1])[:80] if got[0] != "err" else got, show(want)[:80]), fn.loc)
+        decided += r is not None
+    run.analysed["floor_path_cells_decided"] = decided
+    if len(cases) < 30:
+        run.anchor_missing(rule, "functions", "only %d floor-path cases could be set up (functions missing)" % len(cases))
+    run.exhaustive_tables.append("floor-path representatives (negative non-multiples, multiples, positives)")
 
 
 def main(tier):
